@@ -35,6 +35,7 @@ def hash_pool(seed, n=8):
 def gen_scenario(seed, idx):
     r = gen.rng(seed, "c08", idx)
     kind = r.choice(["single", "single", "single", "single", "two-configs", "vf"])
+    many = kind == "single" and r.random() < 0.12  # a font with dozens of glyphs: batching / pooling code paths
     sc = {"kind": kind}
     if kind == "vf":
         fmt = r.choice(["glyf_colr_1", "glyf_colr_0", "glyf"])
@@ -50,6 +51,9 @@ def gen_scenario(seed, idx):
     small = fmt in gen.BITMAP
     dirs = r.choice([("src",), ("src",), ("src", "src/sub"), ("src", "src/sub", "more")])
     n = r.randint(2, 8 if not small else 5)
+    if many:
+        n = r.randint(33, 44)
+        small = True
     ss = gen.source_set(gen.rng(seed, "c08", idx, "names"), n, dirs=dirs, small=small)
     srcs = {p: c for p, c, _ in ss}
     if r.random() < 0.2:  # a sequence long enough for the hashed glyph-name fallback (> 63 characters)
